@@ -3,17 +3,33 @@
    fresh objects."
 
    Model of ArgumentParser.instantiate_classes / ActionTypeHint.instantiate_classes / adapt_class_type
-   (_core.py:1200-1256, _typehints.py:619-633, 1372-1415) restricted to what decides object identity:
-   the configuration is a tree of scalars, lists and class specs; a spec is instantiated by first
-   instantiating its init_args (parser.instantiate_classes(init_args)) in key order and then calling
-   instantiator_fn(val_class, **init_args), which builds a NEW object; nothing is cached between
-   specs or between calls.  Object identity is a counter (the n-th object built by the process). *)
+   (_core.py instantiate_classes, _typehints.py adapt_class_type) restricted to what decides object
+   identity.  The configuration is described INDEPENDENTLY of the parser's output: a tree of scalars,
+   lists, tuples and class specs, where a spec lists ALL parameters of its class in signature order —
+   those written in the configuration and those that come from a signature default or a parser
+   default (`dflt = true`: lazy_instance(...) defaults, which normalize_default / the sub-defaults
+   pass turn into class_path/init_args specs).  A spec is instantiated by first instantiating its
+   init_args in order and then calling instantiator_fn(val_class, **init_args), which builds a NEW
+   object; nothing is cached between specs or between calls.  Object identity is a counter (the n-th
+   object built); identity 0 stands for "an object that existed before the call".
+
+   `fx` selects the tree:
+     fx = false  the current tree: ActionTypeHint.add_sub_defaults skips a value that is a TUPLE
+                 (skip_sub_defaults_apply looks for specs in str / Namespace / list / dict values only),
+                 and adapt_class_type calls parse_object(init_args, defaults=sub_defaults.get()); so for a
+                 spec anywhere below a tuple the parameters left at a lazy_instance signature default
+                 are NOT turned into specs: the class is called with its Python default, the one live
+                 lazy object of the signature — an object that existed before and is the same in every
+                 instantiation;
+     fx = true   with fixes/C08-default-below-tuple-shared.patch (the sub-defaults pass also visits specs
+                 below tuples). *)
 From JV Require Import Lib.Base.
 
 Inductive ival :=
 | IInt (z : Z)
-| ISpec (cls : str) (args : ivals)          (* class_path + the values of init_args, in key order *)
+| ISpec (dflt : bool) (cls : str) (args : ivals)   (* dflt: not written in the configuration, derived from a default *)
 | IList (xs : ivals)
+| ITup (xs : ivals)
 with ivals := INil | ICons (x : ival) (r : ivals).
 
 (* what is built: objects carry the identity they were given *)
@@ -23,16 +39,19 @@ Inductive oinst :=
 | BList (xs : oinsts)
 with oinsts := BNil | BCons (x : oinst) (r : oinsts).
 
-Fixpoint inst (c : nat) (v : ival) : oinst * nat :=
+Fixpoint inst (fx below : bool) (c : nat) (v : ival) : oinst * nat :=
   match v with
   | IInt z => (BInt z, c)
-  | ISpec cls args => let '(ys, c1) := inst_list c args in (BObj c1 cls ys, S c1)   (* init_args first, then the object *)
-  | IList xs => let '(ys, c1) := inst_list c xs in (BList ys, c1)
+  | ISpec dflt cls args =>
+      if negb fx && below && dflt then (BObj 0 cls BNil, c)   (* the live default object of the signature: nothing is built *)
+      else let '(ys, c1) := inst_list fx below c args in (BObj c1 cls ys, S c1)   (* init_args first, then the object *)
+  | IList xs => let '(ys, c1) := inst_list fx below c xs in (BList ys, c1)
+  | ITup xs => let '(ys, c1) := inst_list fx true c xs in (BList ys, c1)
   end
-with inst_list (c : nat) (xs : ivals) : oinsts * nat :=
+with inst_list (fx below : bool) (c : nat) (xs : ivals) : oinsts * nat :=
   match xs with
   | INil => (BNil, c)
-  | ICons x r => let '(y, c1) := inst c x in let '(ys, c2) := inst_list c1 r in (BCons y ys, c2)
+  | ICons x r => let '(y, c1) := inst fx below c x in let '(ys, c2) := inst_list fx below c1 r in (BCons y ys, c2)
   end.
 
 (* identities in the order in which the objects were finished (post-order) *)
@@ -45,24 +64,38 @@ Fixpoint ids (o : oinst) : list nat :=
 with ids_list (xs : oinsts) : list nat :=
   match xs with BNil => [] | BCons x r => ids x ++ ids_list r end.
 
+(* number of class specs = number of objects the property wants built per call *)
 Fixpoint count (v : ival) : nat :=
   match v with
   | IInt _ => 0
-  | ISpec _ args => S (count_list args)
-  | IList xs => count_list xs
+  | ISpec _ _ args => S (count_list args)
+  | IList xs | ITup xs => count_list xs
   end
 with count_list (xs : ivals) : nat :=
   match xs with INil => 0 | ICons x r => count x + count_list r end.
 
+(* the guard of the theorem for the current tree (= finding class of the judge): no default-derived
+   spec anywhere below a tuple *)
+Fixpoint okv (below : bool) (v : ival) : bool :=
+  match v with
+  | IInt _ => true
+  | ISpec dflt _ args => negb (below && dflt) && okv_list below args
+  | IList xs => okv_list below xs
+  | ITup xs => okv_list true xs
+  end
+with okv_list (below : bool) (xs : ivals) : bool :=
+  match xs with INil => true | ICons x r => okv below x && okv_list below r end.
+Definition inst_guard (cfg : ivals) : bool := okv_list false cfg.
+
 (* instantiate_classes(cfg) twice in one process: the second call continues the counter *)
-Definition inst_twice (c : nat) (cfg : ivals) : list nat * list nat :=
-  let '(r1, c1) := inst_list c cfg in
-  let '(r2, _) := inst_list c1 cfg in
+Definition inst_twice (fx : bool) (c : nat) (cfg : ivals) : list nat * list nat :=
+  let '(r1, c1) := inst_list fx false c cfg in
+  let '(r2, _) := inst_list fx false c1 cfg in
   (ids_list r1, ids_list r2).
 
 (* a (wrong) instantiate_classes that keeps the objects of the first call and hands them out again *)
 Definition inst_twice_cached (c : nat) (cfg : ivals) : list nat * list nat :=
-  let '(r1, _) := inst_list c cfg in (ids_list r1, ids_list r1).
+  let '(r1, _) := inst_list true false c cfg in (ids_list r1, ids_list r1).
 
 (* ---- executable spec: all identities of the two runs are pairwise distinct, none existed before
    (>= the counter at the start), and each run built one object per spec *)
